@@ -6,7 +6,7 @@ import json, os, re, subprocess, sys
 
 inc, report = sys.argv[1], sys.argv[2]
 tags = sys.argv[3:] or sorted(d for d in os.listdir(inc) if os.path.isdir(os.path.join(inc, d)))
-WT = '/tmp/wt_verify'
+WT = os.environ.get('VERIF_WT', '/tmp/wt_verify')
 subprocess.run(['git', '-C', '/repo', 'worktree', 'remove', '--force', WT], capture_output=True)
 subprocess.run(['git', '-C', '/repo', 'worktree', 'add', '-q', '--detach', WT, 'HEAD'], check=True)
 res = json.load(open(report)) if os.path.exists(report) else {}
